@@ -221,6 +221,20 @@ def _handlers(hold):
     return [(evt.EVT_C_ECHO, on_echo), (evt.EVT_C_FIND, on_find)]
 
 
+def _iteration_began_after_expiry(target, f5, s_rq):
+    """True when the provider iteration that read the A-ASSOCIATE-RQ BEGAN (left the gate line) more than ARTIM (0.3 s) after
+    Evt5 was processed: a correct reactor looks at ARTIM first in every iteration and would have queued Evt18 ahead of Evt6.
+    An iteration that began earlier and was merely slow (loaded machine) is the known in-iteration race."""
+    t_read = taps.State.dul_event_times.get(s_rq)
+    passes = list(GATE.passes.get(target.dul.ident, ()))
+    if t_read is None or not passes:
+        return False
+    began = [t for t in passes if t <= t_read]
+    if not began:
+        return False
+    return began[-1] - f5["t"] > 0.3 + 0.02
+
+
 def run_schedule(case, steps, role, counters):
     """steps: list of tuples; returns (violations, observation)."""
     rng = rng_for(case["seed"], PID, case.get("name", "r"), case["i"], "run")
@@ -368,7 +382,7 @@ def run_schedule(case, steps, role, counters):
                     s_rq = next((sq for (sq, aid, e) in taps.State.dul_events if aid == id(target) and e == "Evt6"), 10 ** 9)
                     if f5 is None or s_rq < f5["seq"]:
                         how = "rq-read-before-artim-start"
-                    elif f6 is not None and f6["t"] - f5["t"] > 0.3 + 0.05:
+                    elif f6 is not None and _iteration_began_after_expiry(target, f5, s_rq):
                         how = "artim-already-expired-when-the-reading-iteration-began"
                     else:
                         how = "artim-expired-during-the-reading-iteration"
